@@ -591,3 +591,4 @@ Section Progress.
     apply Hall. unfold fuel. rewrite Hsz. lia.
   Qed.
 End Progress.
+
